@@ -12,7 +12,7 @@ concurrently, on in-memory, interval-flushed and write-through swamps.  Every ob
 TLC (Trace_Events) judges every line, carrying the set of spec states that explain the trace so far (commits are not
 observable).  A history that fails the strict spec must be explained exactly by a set of named deviations.
 """
-import itertools, json, os, random
+import json, os, random
 import vlib
 
 F_TIME = "D_C19_TimeNanosAsSeconds"
@@ -73,6 +73,12 @@ def witnesses():
             ops += par(call("w1", "set", 1, 1), call("w2", "set", 1, 2), call("w3", "set", 1, 3))
             ops += seq(call("w1", "del", 1))
         hs.append((mem, ops))
+    # a delete and a re-create of the same record at the same time
+    ops = [dict(op="sub", s="s1")]
+    for i in range(12):
+        ops += seq(call("w1", "set", 2, 3))
+        ops += par(call("w2", "del", 2), call("w1", "set", 2, 1 + i % 2))
+    hs.append((1, ops))
     return hs
 
 
@@ -170,19 +176,38 @@ def write_nd(path, rows):
             f.write(json.dumps(r) + "\n")
 
 
-def judge(ctx, tracefile, dev, name):
-    ok, r = ctx.validate_trace("Trace_Events", "Trace_Events", tracefile, dev=dev, name=name, dfs=False, timeout=2400)
+ALLDEVS = ["TimeNanosAsSeconds", "NoopEvent", "ConcurrentSend", "DeleteUnguarded"]      # bit order of Trace_Events!AllDevs
+FID_OF = {v: k for k, v in DEV_OF.items()}
+
+
+def judge(ctx, tracefile, open_devs, name):
+    """One TLC run judges every line of every history against the strict spec and against every subset of the open
+    deviations.  Returns {history: stuck}, stuck[m] = line at which subset m (bit mask over ALLDEVS) stopped explaining
+    the history (0 = explains all of it, -1 = not evaluated)."""
+    ok, r = ctx.validate_trace("Trace_Events", "Trace_Events", tracefile, dev="+".join(open_devs), name=name, dfs=False, timeout=3000)
     if not ok:
         raise vlib.Inconclusive("trace run %s did not consume every line: %s\n%s" % (name, r.violated, r.out[-1500:]))
-    fails = []
+    res = {}
     for p in r.printed:
         try:
             o = json.loads(p) if isinstance(p, str) else p
         except Exception:
             continue
-        if isinstance(o, dict) and "fail" in o:
-            fails.append(o)
-    return fails, r
+        if isinstance(o, dict) and "stuck" in o:
+            res[o["h"]] = o["stuck"]
+    return res
+
+
+def verdict(stuck):
+    """(strict_ok, minimal explaining set of deviation names or None, line where the most permissive spec is left)"""
+    alive = [m for m, v in enumerate(stuck) if v == 0]
+    if 0 in alive:
+        return True, [], 0
+    if not alive:
+        full = max((m for m, v in enumerate(stuck) if v >= 0), key=lambda m: bin(m).count("1"))
+        return False, None, stuck[full]
+    m = min(alive, key=lambda m: (bin(m).count("1"), m))
+    return False, [ALLDEVS[i] for i in range(len(ALLDEVS)) if (m >> i) & 1], 0
 
 
 def run(ctx):
@@ -262,42 +287,25 @@ def run(ctx):
     ctx.extra["sends_begun_while_another_in_flight"] = sum(1 for x in lines if x["ev"] == "sb" and x["infl"] > 0)
     ctx.extra["calls"] = sum(1 for x in lines if x["ev"] == "call")
 
-    # 3. strict judgement of every line
-    fails, _ = judge(ctx, tf, "", "trace-strict")
-    ctx.cov["evaluations"] += len(lines)
-    failed = {f["h"]: f["fail"] - 1 for f in fails}          # history -> index of the first line no strict state explains
+    # 3. one TLC run: every line of every history against the strict spec and every set of open deviations
+    open_devs = [DEV_OF[f] for f in (F_TIME, F_NOOP, F_CONC, F_DEL) if ctx.is_known(f)]
+    write_nd(tf + ".judge", lines + [dict(ev="end")])
+    res = judge(ctx, tf + ".judge", open_devs, "trace-all")
+    ctx.cov["evaluations"] += len(lines) * (2 ** len(open_devs))
+    if set(res) != set(index):
+        raise vlib.Inconclusive("TLC reported %d histories, the script has %d" % (len(res), len(index)))
+    failed, explained, stuck = {}, {}, {}
+    for h in sorted(res):
+        ok_strict, devs_needed, at = verdict(res[h])
+        if ok_strict:
+            continue
+        failed[h] = res[h][0] - 1                                  # index into `lines` of the line the strict spec cannot take
+        if devs_needed is None:
+            stuck[h] = at - 1
+        else:
+            explained[h] = [FID_OF[d] for d in devs_needed]
     ctx.extra["strict_failed_histories"] = len(failed)
-
-    def sub_trace(hs, name):
-        rows, origin = [], []
-        for h in sorted(hs):
-            a, b = tindex[h]
-            rows += lines[a:b]
-            origin += list(range(a, b))
-        p = os.path.join(ctx.work, name + ".ndjson")
-        write_nd(p, rows)
-        return p, origin
-
-    # 4. a failing history must be explained exactly by a (smallest) set of named deviations
-    devs = [f for f in (F_TIME, F_NOOP, F_CONC, F_DEL) if ctx.is_known(f)]
-    explained, stuck = {}, dict(failed)
-    rest = set(failed)
-    # smallest sets first, so that a history is attributed only to the deviations it really needs
-    combos = [c for n in range(1, len(devs) + 1) for c in itertools.combinations(devs, n)]
-    for ci, combo in enumerate(combos):
-        if not rest:
-            break
-        nm = "+".join(DEV_OF[d] for d in combo)
-        p, origin = sub_trace(rest, "failed-" + nm)
-        fl, _ = judge(ctx, p, nm, "trace-asbuilt-" + nm)
-        ctx.cov["evaluations"] += len(origin)
-        still = {f["h"] for f in fl}
-        for f in fl:
-            if len(combo) == len(devs):
-                stuck[f["h"]] = origin[f["fail"] - 1]
-        for h in rest - still:
-            explained[h] = list(combo)
-        rest = still
+    rest = set(failed) - set(explained)
 
     def hist_obj(h):
         a, b = index[h]
@@ -305,16 +313,15 @@ def run(ctx):
         return dict(kind="history", h=h, script=script[a:b], trace=lines[ta:tb])
 
     for h in sorted(failed):
-        ln = lines[stuck[h]]
-        what = "history %d: no state of the spec explains line %s (after %d lines of the history)" % (
-            h, json.dumps(ln, sort_keys=True), stuck[h] - tindex[h][0])
         if h in explained:
             first = lines[failed[h]]
             for d in explained[h]:
                 ctx.deviation(d, "history %d: the strict spec is left at %s; explained by %s" % (
                     h, json.dumps(first, sort_keys=True), "+".join(DEV_OF[x] for x in explained[h])), hist_obj(h))
         else:
-            ctx.deviation(None, what + " and no set of named deviations explains the history", hist_obj(h))
+            ln = lines[stuck[h]]
+            ctx.deviation(None, "history %d: no state of the spec explains line %s (after %d lines of the history) and no set of named "
+                                "deviations explains the history" % (h, json.dumps(ln, sort_keys=True), stuck[h] - tindex[h][0]), hist_obj(h))
 
     # 5. accounting
     for h in index:
@@ -333,9 +340,8 @@ def run(ctx):
         ta, tb = tindex[ok_h[0]]
         ctx.sample(dict(kind="history accepted by the strict spec", lines=lines[ta:tb][:10]))
 
-    # 6. binding self-test (thorough): a corrupted value / a dropped event must be noticed by the most permissive spec
+    # 6. binding self-test (thorough): a corrupted value / a dropped event must be noticed even by the most permissive spec
     if thorough and not ctx.replay:
-        allnm = "+".join(DEV_OF[d] for d in devs)
         cands = [h for h in index if h not in rest and any(x["ev"] == "sb" for x in lines[tindex[h][0]:tindex[h][1]])]
         if not cands:
             raise vlib.Inconclusive("binding self-test: no explained history with an event")
@@ -346,17 +352,19 @@ def run(ctx):
         bad = [json.loads(json.dumps(x)) for x in rows]
         bad[i]["val"] += 7
         p = os.path.join(ctx.work, "selftest-value.ndjson")
-        write_nd(p, bad)
-        fl, _ = judge(ctx, p, allnm, "selftest-value")
-        ctx.extra["selftest_corrupted_value_rejected"] = bool(fl)
-        if not fl:
+        write_nd(p, bad + [dict(ev="end")])
+        r1 = judge(ctx, p, open_devs, "selftest-value")
+        rejected = verdict(r1[h])[1] is None and not verdict(r1[h])[0]
+        ctx.extra["selftest_corrupted_value_rejected"] = rejected
+        if not rejected:
             raise vlib.Inconclusive("binding self-test failed: an event with a corrupted value was accepted")
         drop = rows[:i] + rows[i + 2:]                        # the send (begin + end) vanishes
         p = os.path.join(ctx.work, "selftest-drop.ndjson")
-        write_nd(p, drop)
-        fl, _ = judge(ctx, p, allnm, "selftest-drop")
-        ctx.extra["selftest_dropped_event_rejected"] = bool(fl)
-        if not fl:
+        write_nd(p, drop + [dict(ev="end")])
+        r2 = judge(ctx, p, open_devs, "selftest-drop")
+        rejected = verdict(r2[h])[1] is None and not verdict(r2[h])[0]
+        ctx.extra["selftest_dropped_event_rejected"] = rejected
+        if not rejected:
             raise vlib.Inconclusive("binding self-test failed: a trace with a dropped event was accepted")
     ctx.cov["rule"] = ("case = one gateway history (writers through the in-process gRPC client, subscribers = the real SubscribeToEvents handler on "
                        "a recording stream) judged line by line by TLC; non-trivial = the history has concurrent writers or >= 2 subscription changes")
